@@ -146,11 +146,14 @@ impl DepsGraph {
             None => return,
         };
 
+        // Mark the node before visiting its reverse dependencies, so that the
+        // visit terminates when assets look each other up (cyclic graph)
+        sort_data.visited.insert(key.into_owned());
+
         for rdep in node.rdeps.iter() {
             self.visit(sort_data, rdep.as_borrowed());
         }
 
-        sort_data.visited.insert(key.into_owned());
         if let BorrowedDependency::Asset(key) = key {
             sort_data.list.push(key.clone());
         }
